@@ -43,10 +43,13 @@ POOL = ["null", "0", "1", "2", "0-3", "1000", "7//2", "2^70", "1/2", "0-7/3", "2
 POOL_KIND = ["null", "int", "int", "int", "int", "int", "bigrepr-int", "big-int", "rational", "rational", "float", "float", "complex",
              "string", "string", "string", "list", "list", "list", "list", "dict", "dict", "vector", "bytes", "stream",
              "closure", "closure", "builtin", "type"]
-POOL_EXTRA = ["0-1", "255", "2^64", "10^30", "1e300", "0.0/0.0", "[null]", '"\\n"', '{1: "x"}', "V(0.5)", "B[]", "1 til 1", "[1, 2] lazy_map (+1)",
+POOL_EXTRA = ["0-1", "255", "2^64", "10^30", "1e300", "0.0/0.0", "[null]", '"\\n"', '{1: "x"}', "V(0.5)", "B[]", "1 til 1", "(1 to 2) lazy_map (+1)",
               "\\...xs -> xs", "flip(-)"]
 BIG = {POOL.index("2^70")}
-IS_FUNC = {i for i, k in enumerate(POOL_KIND) if k in ("closure", "builtin", "type")}
+TRI_POOL = ["0", "2", '"a"', "[1, 2, 3]", "[[1, 2], [3, 4]]", '{"a": 3}', "\\x -> x + 1", "\\x, y -> x + y * 2"]   # 3-tuples: f(x, y, z) vs f(z)(x, y)
+TRI_POOL_EXTRA = ["null", "1/2", "2.5", '"hello world"', "V(1, 2, 3)", "1 to 3"]
+FUNC_SRCS = {POOL[i] for i, k in enumerate(POOL_KIND) if k in ("closure", "builtin", "type")} | {"\\...xs -> xs", "flip(-)"}
+IS_FUNC = {i for i, x in enumerate(POOL + POOL_EXTRA) if x in FUNC_SRCS}
 PROBES = [[3], [17], [14], [3, 17], [17, 3], [2, 3]]
 # builtins that do I/O, touch files/processes/network/clock/sleep/random/input, or evaluate source text
 EXCLUDE = set("append_file eval input interact interact_lines list_files now random random_bytes random_range read read_bytes "
@@ -109,7 +112,7 @@ def list_globals():
     return r["names"]
 
 
-def sweep_tuples(name, pool_n, big):
+def sweep_tuples(name, pool_n, big, tri):
     ts = []
     unsafe = name in BIG_UNSAFE
     for i in range(pool_n):
@@ -121,15 +124,19 @@ def sweep_tuples(name, pool_n, big):
             if unsafe and (i in big or j in big):
                 continue
             ts.append([i, j])
+    for i in tri:
+        for j in tri:
+            for k in tri:
+                ts.append([i, j, k])
     return ts
 
 
-def run_sweep(ctx, names, pool, big, chunk=320, limit_ms=1500):
+def run_sweep(ctx, names, pool, big, tri, chunk=320, limit_ms=1500):
     """returns merged per-name results"""
     binary = common.harness_bin("c04")
     pending = []
     for n in names:
-        ts = sweep_tuples(n, len(pool), big)
+        ts = sweep_tuples(n, len(pool), big, tri)
         for k in range(0, len(ts), chunk):
             pending.append({"fn": n, "tuples": ts[k:k + chunk]})
     merged = {n: {"calls": 0, "compared": 0, "sections": 0, "diffs": [], "panics": [], "hangs": [], "aborts": [],
@@ -184,7 +191,7 @@ def run_sweep(ctx, names, pool, big, chunk=320, limit_ms=1500):
 def confirm_diff(d, pool):
     """re-run one differing tuple alone, in a fresh process/env"""
     case = {"mode": "sweep", "fn": d["fn"], "pool": pool, "setup": [], "tuples": [d["t"]], "probes": PROBES, "fuel": 20000,
-            "limit_ms": 5000, "unordered": d["fn"] in UNORDERED}
+            "limit_ms": 5000, "unordered": d["fn"] in UNORDERED, "fresh": True}
     r = common.run_harness(common.harness_bin("c04"), [case], timeout=30.0, workers=1)[0]
     return [x for x in r.get("diffs", []) if x["kind"] == d["kind"] and x["what"] == d["what"]]
 
@@ -322,16 +329,16 @@ def render_val(t, closures):
     raise Unrenderable(head)
 
 
-def gen_dispatch_cases(ctx, sweep, names):
+def gen_dispatch_cases(ctx, sweep, names, pool, big):
     """(f, a, b) triples. Builtins: pairs the sweep saw succeed (non-trivial) plus failing ones."""
     rng = ctx.rng
     cases = []
     per_ok = ctx.n(3, 10)
     per_fail = ctx.n(1, 3)
-    N = len(POOL)
+    N = len(pool)
 
     def data_bindings(idx):
-        return [(v, POOL[i], None) for v, i in zip("abc", idx)]
+        return [(v, pool[i], None) for v, i in zip("abc", idx)]
 
     def flags(name, idxs):
         """model flags of the opaque builtin bound to `name`: which of the case's argument atoms make a one-argument call a section"""
@@ -350,7 +357,7 @@ def gen_dispatch_cases(ctx, sweep, names):
         fails = []
         for _ in range(40):
             t = [rng.randrange(N), rng.randrange(N)]
-            if tuple(t) not in okset and not (unsafe and (t[0] in BIG or t[1] in BIG)) and len(fails) < per_fail:
+            if tuple(t) not in okset and not (unsafe and (t[0] in big or t[1] in big)) and len(fails) < per_fail:
                 fails.append(t)
         picks = rng.sample(oks2, min(per_ok, len(oks2))) + fails
         for t in picks:
@@ -358,6 +365,13 @@ def gen_dispatch_cases(ctx, sweep, names):
             kind = m["one_kinds"].get(str(t[1]))
             bnd = [("f", n, "(B f (%s) (%s))" % (" ".join(p2), " ".join(pl)))] + data_bindings(t)
             cases.append(Case("builtin:" + n, bnd, "builtin", t[0] in IS_FUNC, curried=kind in ("P2", "PL")))
+        # three arguments (tuples the sweep saw succeed)
+        oks3 = [t for t in m["oks"] if len(t) == 3]
+        for t in rng.sample(oks3, min(ctx.n(1, 4), len(oks3))):
+            p2, pl = flags(n, t)
+            kind = m["one_kinds"].get(str(t[2]))
+            bnd = [("f", n, "(B f (%s) (%s))" % (" ".join(p2), " ".join(pl)))] + data_bindings(t)
+            cases.append(Case("builtin3:" + n, bnd, "builtin", t[0] in IS_FUNC, curried=(kind == "PL"), arity=3))
         # one argument
         oks1 = [t for t in m["oks"] if len(t) == 1]
         for t in rng.sample(oks1, min(ctx.n(1, 3), len(oks1))):
@@ -365,7 +379,7 @@ def gen_dispatch_cases(ctx, sweep, names):
             bnd = [("f", n, "(B f (%s) (%s))" % (" ".join(p2), " ".join(pl)))] + data_bindings(t)
             cases.append(Case("builtin1:" + n, bnd, "builtin", t[0] in IS_FUNC, arity=1))
 
-    data_idx = [i for i in range(N) if i not in BIG]
+    data_idx = [i for i in range(len(POOL)) if i not in BIG]
     closures = [("\\x, y -> [x, y]", 2), ("\\x, y -> x", 2), ("\\x, y -> y", 2), ("(\\k -> \\x, y -> [k, x, y])(7)", 2),
                 ("\\...xs -> xs", None), ("\\x -> [x]", 1), ("\\x, y, z -> [z, y, x]", 3), ("\\x, y: int -> [y, x]", 2),
                 ("\\x, ...ys -> [x, ys]", None), ("\\-> 5", 0)]
@@ -398,10 +412,11 @@ def gen_dispatch_cases(ctx, sweep, names):
         ab = list(zip("ab", t[:2]))
         c = None
         if which == "flip":
-            c = Case("flip(%s)" % g, [gb(ab), ("f", "flip(g)", "(call (K flip) g)")] + data_bindings(t[:2]), "flip", t[0] in IS_FUNC)
+            c = Case("flip(%s)" % g, [gb(ab), ("f", "flip(g)", "(call (K flip) g)")] + data_bindings(t[:2]), "flip", t[0] in IS_FUNC,
+                     curried=True)   # flip(g)(b) is PartialApp1(g, b): flip(g)(b)(a) = g(b, a) = flip(g)(a, b)
         elif which == "flipc":
             c = Case("flip(closure)", [("g", "\\x, y -> [x, y]", "(C 0)"), ("f", "flip(g)", "(call (K flip) g)")] + data_bindings(t[:2]),
-                     "flip", t[0] in IS_FUNC)
+                     "flip", t[0] in IS_FUNC, curried=True)
             c.closures = ["g"]
         elif which == "compr":
             h = rng.choice(one)
@@ -436,7 +451,8 @@ def gen_dispatch_cases(ctx, sweep, names):
         elif which == "known_const":
             c = Case("f=const", [("f", "const", "(K const)")] + data_bindings(t[:2]), "known", t[0] in IS_FUNC, curried=True)
         elif which == "flip_known":
-            c = Case("flip(const)", [("f", "flip(const)", "(call (K flip) (K const))")] + data_bindings(t[:2]), "flip", t[0] in IS_FUNC)
+            c = Case("flip(const)", [("f", "flip(const)", "(call (K flip) (K const))")] + data_bindings(t[:2]), "flip", t[0] in IS_FUNC,
+                     curried=True)
         elif which == "flip1":
             c = Case("f=flip", [gb([]), ("f", "flip", "(K flip)"), ("a", "g", "g")], "known", True, arity=1)
         elif which == "id1":
@@ -637,7 +653,8 @@ def run(ctx):
     excluded = [x["name"] for x in globs if x["kind"] in ("builtin", "type", "func") and x["name"] in EXCLUDE]
     pool = POOL + (POOL_EXTRA if not ctx.quick() else [])
     big = set(BIG) | ({pool.index(x) for x in ("2^64", "10^30", "1e300")} if not ctx.quick() else set())
-    sweep = run_sweep(ctx, names, pool, big)
+    tri = [POOL.index(x) for x in TRI_POOL] + ([POOL.index(x) for x in TRI_POOL_EXTRA] if not ctx.quick() else [])
+    sweep = run_sweep(ctx, names, pool, big, tri)
     t_sweep = time.time() - t0
     # ---- (b) verdicts
     diffs = [d for n in names for d in sweep[n]["diffs"]]
@@ -648,7 +665,7 @@ def run(ctx):
         if is_known_combinator(d):
             known.append(d)
             continue
-        if key in seen:
+        if key in seen or len(real) >= 12:
             continue
         seen.add(key)
         conf = confirm_diff(d, pool)
@@ -666,14 +683,14 @@ def run(ctx):
             "part": "entry-points", "fn": d["fn"], "args": args, "tuple": d["t"], "compared": d["what"], "left": d["left"], "right": d["right"],
             "why": d["why"], "one_arg_result": d.get("one_arg_result"),
             "program": ("%s(%s)" % (d["fn"], ", ".join(args))) if d["kind"] == "entry" else
-                       ("f := %s; [f(%s, %s), f(%s)(%s)]" % (d["fn"], args[0], args[1], args[1], args[0])),
+                       ("f := %s; [f(%s), f(%s)(%s)]" % (d["fn"], ", ".join(args), args[-1], ", ".join(args[:-1]))),
             "what": ("Builtin::run(vec) and the specialised entry point (run1/run2) of the same builtin disagree on these arguments"
                      if d["kind"] == "entry" else
-                     "f(x, y) succeeds and f(y) is a function, but f(y)(x) differs from f(x, y) (one-argument call is not a right section)")},
+                     "f(x.., y) succeeds and f(y) is a function, but f(y)(x..) differs from f(x.., y) (one-argument call is not a right section)")},
             found=True)
     # ---- (a) dispatch
     t1 = time.time()
-    cases = gen_dispatch_cases(ctx, sweep, names)
+    cases = gen_dispatch_cases(ctx, sweep, names, pool, big)
     if runner is not None:
         run_dispatch(ctx, cases, runner)
         nbad = report_dispatch(ctx, cases, runner)
